@@ -53,8 +53,8 @@ CallRec(aid, m, f) ==
   [aid |-> aid, model |-> IF m = 0 THEN <<>> ELSE <<m>>, keepAsym |-> FlagChoices[f].keepAsym,
    useAuthor |-> FlagChoices[f].useAuthor, bonds |-> FlagChoices[f].bonds]
 AidArgs == {<<>>, <<"1">>, <<"2">>, <<"9">>}
-NegOne == -1
-ModelVals == {IF m = 99 THEN NegOne ELSE m : m \in ModelArgs}      \* cfg files hold no negative numbers
+\* cfg files hold no negative numbers: 99, 98, 97 stand for -1, -3, -4
+ModelVals == {IF m >= 97 THEN (IF m = 99 THEN -1 ELSE IF m = 98 THEN -3 ELSE -4) ELSE m : m \in ModelArgs}
 
 Par(nm, tab, gens, missing) == [nm |-> nm, tab |-> tab, gens |-> gens, missing |-> missing]
 blk == Block(par.nm, par.tab, par.gens, par.missing)
@@ -100,6 +100,12 @@ L_Copies ==
                    LET e == AstOf(Rows[r].expr)  sel == Selected(blk, Rows[r].asyms) IN
                    FlattenSeq([c \in DOMAIN Chains(e) |-> [s \in DOMAIN sel |-> <<sel[s], c - 1>>]])]
      IN [j \in DOMAIN G.atoms |-> <<G.atoms[j].src, G.atoms[j].sym>>] = FlattenSeq(per)
+\* ... where "the listed atoms" are exactly the atoms whose label_asym_id is one of the listed ids, in file order
+L_Listed ==
+  Done => \A g \in DOMAIN blk.gens :
+     LET sel == Selected(blk, blk.gens[g].asyms) IN
+     /\ ToSet(sel) = {i \in 1..NAtoms(blk) : \E k \in DOMAIN blk.gens[g].asyms : blk.gens[g].asyms[k] = blk.atoms[i].asym}
+     /\ \A p, q \in DOMAIN sel : p < q => sel[p] < sel[q]
 \* positions: the composite of the written operations (right to left) moves every model alike
 L_Positions ==
   (Accepted /\ res.strict) =>
@@ -144,6 +150,11 @@ ASSUME \A tab \in {1, 2} : \A ch \in UNION {[1..n -> {"1", "2", "3", "X0"}] : n 
             /\ ChainOp(Table(tab), ch).t = WrittenOp(Table(tab), Reverse(ch)).t
 \* the order of application matters in this family (otherwise the laws could not tell the orders apart)
 ASSUME ApplyChain(Table(1), <<"2", "3">>, <<1, 3, -1>>) # ApplyChain(Table(1), <<"3", "2">>, <<1, 3, -1>>)
+\* the model parameter (docstring): numbers start at 1, negative values count from the last model, None = all
+ASSUME /\ ResolveModels(3, <<1>>).models = <<1>> /\ ResolveModels(3, <<-1>>).models = <<3>>
+       /\ ResolveModels(3, <<-3>>).models = <<1>> /\ ~ResolveModels(3, <<-4>>).ok /\ ~ResolveModels(3, <<0>>).ok
+       /\ ~ResolveModels(2, <<3>>).ok /\ ResolveModels(2, <<>>).models = <<1, 2>> /\ ResolveModels(2, <<>>).stack
+       /\ ~ResolveModels(2, <<2>>).stack
 \* an id given twice: the later row counts
 ASSUME Lookup(Table(2), "2").R = RotZ /\ Lookup(Table(2), "2").t = <<0, 0, 3>>
 =============================================================================
